@@ -10,9 +10,11 @@ P = {}
 def prop(pid, cat, technique, text, note, design):
     P[pid] = dict(cat=cat, technique=technique, text=text, note=note, design=design)
 
-COMMON_NOTE = ("Trusted: Coq 8.16.1 kernel and vm_compute; the hand-written Gallina model of the anchored Rust functions (validated on every "
-               "run by the correspondence check on outputs and serialized state, not proved against rustc); tools/translate.py for the "
-               "regenerated files; extraction (ExtrOcamlBasic only), OCaml, the Rust harness. Capacity hypothesis: stored bits < 2^56.")
+COMMON_NOTE = ("Trusted: Coq 8.16.1 kernel and vm_compute (all pinned theorems closed under the global context); tools/translate.py + rustparse.py "
+               "(Rust subset -> Gallina, incl. the modelled Rust integer/panic semantics of Base/Res.v) which regenerates every modelled function on "
+               "each run; the statements and Spec/*.v; for the search only: extraction (ExtrOcamlBasic only, no Extract Constant), OCaml driver, Rust "
+               "harness. The hand-written models are proved equal to the regenerated code and compared with the implementation. Hypotheses: stored "
+               "bits < 2^56 (derived bounds in DESIGN 3.3) and the documented API preconditions.")
 
 for pid, what in [
     ("C01", "Rank9Sel build + access/rank/select/counts vs the plain bit sequence, 4 hint configurations"),
